@@ -243,6 +243,20 @@ def run(ctx):
         gone = solo.get(n)
         if gone:
             dedup_ids.add(c["id"])
+        # the recorded finding is about structurally equal bodies that differ in their validations: only the twins design is
+        # packed that way.  A disagreement that disappears when the method is alone ANYWHERE ELSE is some other interference
+        # between the methods of a design (e.g. bodies that differ below the top level sharing one schema): not recorded.
+        if gone and not c["v"].get("together"):
+            v = c["v"]
+            attrs, vals = (v["pa"], v["pv"]) if fam == "req" else (v["ra"], v["rv"])
+            tag = "+".join("%s/%s" % (hc.attr_tag(a), val_class(a, x)) for a, x in zip(attrs, vals))
+            ctx.violation("C14/%s/%s/%s/only-beside-other-methods" % (side, tag, what),
+                          "%s attribute(s) %s: %s in the packed design, gone when the method is generated alone: another method of the design "
+                          "interferes with its documented schema although no two bodies of the design are structurally equal (uri %s, schema req=%s resp=%s)" % (
+                              "request" if fam == "req" else "result", " + ".join(hc.attr_tag(a) for a in attrs), what, c["obs"].get("uri"), sv["req"], sv["resp"]),
+                          {"vector": {k: v[k] for k in ("fam", "pa", "ra", "tagged", "pv", "rv", "flag") if k in v}, "schema": {k: sv.get(k) for k in ("req", "resp", "err", "rerr")},
+                           "alone": gone, "design": c.get("design")})
+            continue
         report(ctx, fam, side, c, sv, what, [DEDUP] if gone else [], alone=gone)
     # declared-error responses (C07 designs of the response family)
     err_traces = error_responses(ctx, K, quick)
